@@ -895,8 +895,13 @@ def gen_C15(g, tier):
 def gen_C19(g, tier):
     r = g.r
     lines = []
+    for n in (32, 64, 96, 128, 160):
+        t = g.text("dna", n)
+        lines.append(f"dna conv iupac p str {hx(t)}")
+        lines.append(f"dna conv text p str {hx(t)}")
+        lines.append(f"dna conv iupac {offset_slice(g, 'dna', t, 7)}")
     for _ in range(30 if tier == "quick" else 500):
-        n = r.choice([0, 1, 31, 32, 33, r.randrange(0, 100)])
+        n = r.choice([0, 1, 31, 32, 33, 63, 64, 65, 95, 96, 97, 127, 128, 129, r.randrange(0, 100)])
         t = g.text("dna", n)
         sl = offset_slice(g, "dna", t, r.randrange(0, 33))
         lines.append(f"dna conv iupac {sl}")
@@ -1054,7 +1059,16 @@ def rand_decl(r, kind="wf"):
         vs[r.randrange(n)][1] = "d" + str(r.choice([256, 300, 1000]))
     toks = [bits, str(n)]
     for ident, disc, disp, alts in vs:
-        toks += [ident, disc, disp, str(len(alts))] + [r.choice("dbx") + str(a) for a in alts]
+        alt_toks = [r.choice("dbx") + str(a) for a in alts]
+        if len(alt_toks) >= 2 and r.random() < 0.5:
+            # split the alternatives over several #[alt(..)] attributes
+            cut = sorted(r.sample(range(1, len(alt_toks)), r.randrange(1, min(3, len(alt_toks)))))
+            parts, prev = [], 0
+            for c_ in cut + [len(alt_toks)]:
+                parts.append(alt_toks[prev:c_])
+                prev = c_
+            alt_toks = [x for i, part in enumerate(parts) for x in (["|"] if i else []) + part]
+        toks += [ident, disc, disp, str(len(alt_toks))] + alt_toks
     return " ".join(toks)
 
 
